@@ -279,6 +279,13 @@ func ruleOwn(c *Ctx) {
 				}
 			}
 			c.check(fresh, key, c.pos(ci.Pos()), fname(fn), "each iteration adds a freshly created op", "the same *TrackOp is added once per loop iteration: Track.Add rewrites op.TickDelta, so the op is shared between tracks and each track's delay leaks into the next (end-of-track drifts with --track N>1)")
+			// an event given to every track is at the same global time on each of them: it must be added without
+			// pushing its delta onto the other tracks (Track.Add, not TrackSet.Add / controller.Add)
+			if l := enclosingRangeLoop(b); l != nil {
+				if call, ok := l.bound.(*ssa.Call); ok && strings.HasSuffix(calleeName(&call.Call), "TrackSet.Len") {
+					c.check(calleeName(ci.Common()) == "midix.(*Track).Add", key+"|no-propagation", c.pos(ci.Pos()), fname(fn), "an event for every track is added to each track directly", "inside a loop over all tracks the op is added with "+strings.TrimPrefix(calleeName(ci.Common()), "midix.")+", which also pushes the op's delta onto every other track: the delay is counted once per remaining track and the end-of-track markers drift apart after a trailing rest")
+				}
+			}
 		}
 	}
 }
